@@ -609,6 +609,7 @@ class RemoteStreamFlowPath(
                 path,
                 "&&",
                 "sha1sum",
+                "<",
                 path,
                 "|",
                 "awk",
@@ -623,7 +624,7 @@ class RemoteStreamFlowPath(
                         status, command, self.location, result
                     )
                 )
-            return result.strip()
+            return result.strip() or None
 
     async def chmod(self, mode: int, *, follow_symlinks=True):
         if (inner_path := await self._get_inner_path()) != self:
